@@ -56,6 +56,9 @@ PROPS = {
                 slices=[S("fault", 90, 1400, ["corr", "sconverge", "loginv", "no_panic"])], assumptions=SERVICE_ASSUMPTIONS),
     "C08": dict(lean=["Orda.Props.C08"], rule="each case is one scenario re-run with ONE database command of ONE request failing (mode fail) or being the last before the database goes away and the server restarts (mode crash), followed by retries of all clients; non-trivial: the faulted command belongs to a request that pushes operations; distinct = distinct (scenario, request, command, mode)",
                 slices=[S("dbfault", 5, 40, ["corr", "fault_recovers", "no_panic"])], assumptions=SERVICE_ASSUMPTIONS + ["a failed command has no effect (memmongo semantics); a crash is modelled as: no command after the faulted one is executed, then the server process restarts against the same data"]),
+    "C20": dict(lean=["Orda.Props.C20"], rule="forced witness schedules (3) through the verif schedule points, then stress runs: 2..8 goroutines x 30 calls (every 4th a transaction) on one datatype while another goroutine applies remote operations, randomised yields at the schedule points; non-trivial: every run; distinct by (datatype, goroutines, seed)",
+                slices=[S("conc", 24, 400, ["goroutines_serial"])],
+                assumptions=["schedule points exist only with build tag verif (client/pkg/verifhook)", "Go memory model / data races are not decided (named gap)"]),
     "C06": dict(lean=["Orda.Props.C06"], rule="non-trivial: ≥2 clients pushed to the same datatype and at least one request was a re-push, an empty push or came after other clients' pushes; store dumped and checked after EVERY request; distinct command sequences",
                 slices=[S("svclog", 60, 900, ["corr", "loginv", "no_panic"]), S("mut", 60, 900, ["corr", "loginv", "refused_noop"])], assumptions=SERVICE_ASSUMPTIONS),
     "C13": dict(lean=["Orda.Props.C13"], rule="non-trivial: a case exercises ≥2 entry modes on one key, or a refusal (create on existing / subscribe to missing / other type); distinct command sequences",
@@ -84,7 +87,7 @@ def nontrivial(pid, case):
     errs = sum(1 for ln, _ in case if ln.get("k") == "call" and ln.get("obs", {}).get("err"))
     oks = sum(1 for ln, _ in case if ln.get("k") == "call" and not ln.get("obs", {}).get("err"))
     remote = sum(1 for ln, _ in case[3:] if ln.get("k") == "dlv" and ln.get("obs", {}).get("ids"))
-    if pid == "C14":
+    if pid in ("C14", "C20"):
         return True
     if pid == "C19":
         return any(ln.get("k") in ("pjson", "patch") and len(ln.get("obs", {}).get("patch", []) or []) >= 1 for ln, _ in case) or any(ln.get("k") == "patch" for ln, _ in case)
@@ -134,7 +137,12 @@ def run_slices(pid, P, tier, seed, scratch, cov, distinct, log):
         for case in oracles.split_cases(lines):
             ncases += 1
             nsteps += len(case)
-            if nontrivial(pid, case):
+            if case[0][0].get("k") in ("conccase", "enccase") or (case[0][0].get("k") not in ("case", "scase")):
+                # line-oriented slices: every executed line is one case
+                for ln, _ in case:
+                    if ln.get("k") not in ("intent", "conccase", "enccase"):
+                        distinct.add(hashlib.sha1(json.dumps(ln, sort_keys=True).encode()).hexdigest())
+            elif nontrivial(pid, case):
                 distinct.add(hashlib.sha1(cmd_key(case).encode()).hexdigest())
             if len(cov["samples"]) < 3 and len(case) > 6 and nontrivial(pid, case):
                 cov["samples"].append(dict(profile=sl["profile"], commands=trace_of(case)[:40]))
